@@ -472,9 +472,9 @@ func runC17Free(rc *sim.RunCtx) {
 func init() {
 	Register(&sim.Check{
 		ID: "C17", Level: "exploration", Run: runC17,
-		Rule: "the same generated history over the constraints profile (leafrefs into sibling lists, must across siblings and branches, defaults, running values seeded so that validators load them lazily) is applied to two worlds that differ only in Validation.DisableConcurrency; every transaction is first validated as a dry run once sequentially and three times concurrently: the normalised error/warning sets must be identical. The quick tier runs this on the normal build (verdict determinism); the thorough tier rebuilds the simulator with the Go race detector (-race) and reports any DATA RACE printed by a worker whose stack touches pkg/tree or the schema client (arm B: runtime monitoring of uncontrolled schedules, inputs replay exactly, interleavings do not). Non-trivial = a step with validation messages; distinct = signature.",
+		Rule: "two thirds of the runs are arm A: every goroutine of RootEntry.Validate parks at yield points compiled into pkg/tree (start of a validation goroutine, lazy load of a running value or default, child creation, value insertion) and is released one at a time by the seeded scheduler; histories over the lazy profile (validators of different branches read the same running values and defaults through leafrefs with current() predicates, relative leafrefs and must statements) and the constraints profile; per transaction the sequential verdict is the reference for 2 scheduled concurrent validations of a tree built WITHOUT the running store (validators load on demand) and for 2 scheduled dry runs through the transaction pipeline. One third lets the goroutines run free (differential, incl. the partial trees). The thorough tier rebuilds the simulator with the Go race detector and reports any DATA RACE whose accesses are not both in harness code (arm B: runtime monitoring of uncontrolled schedules, inputs replay exactly, interleavings do not). Non-trivial = a validated step; distinct = signature incl. schedule hash.",
 		Real: realCore, Stub: stubCore,
-		Assume:           []string{"goroutine interleavings inside RootEntry.Validate are those the Go scheduler produces (GOMAXPROCS of the host); they are not seeded - the deterministic yield-point arm of DESIGN was not built (see DESIGN §4 C17)"},
+		Assume:           []string{"arm A decides verdict determinism over seeded schedules at the granularity of the pkg/tree yield points; the absence of unsynchronised accesses is decided only by the race detector on schedules the simulator does not control (thorough tier)"},
 		NonDeterministic: true, CrashIsViolation: true, HangIsViolation: true,
 		RequiredProbes: []string{"invalid-step", "lazy-load-candidates", "mode-scheduled", "mode-free-running", "yield-tree.validate", "lazy-load-during-validate"},
 		QuickSeconds:   30, ThoroughSeconds: 420,
